@@ -37,11 +37,15 @@
 '''Contains the PSyData transformation.
 '''
 
+from fparser.two import Fortran2003
+from fparser.two.utils import BlockBase, walk
+
 from psyclone.configuration import Config
 from psyclone.errors import InternalError
 from psyclone.psyGen import InvokeSchedule, Kern
 from psyclone.psyir.nodes import PSyDataNode, Schedule, Return, \
-    OMPDoDirective, ACCDirective, ACCLoopDirective, Routine
+    OMPDoDirective, ACCDirective, ACCLoopDirective, Routine, CodeBlock, \
+    Loop, WhileLoop
 from psyclone.psyir.transformations.region_trans import RegionTrans
 from psyclone.psyir.transformations.transformation_error \
     import TransformationError
@@ -295,7 +299,72 @@ class PSyDataTrans(RegionTrans):
                 except KeyError:
                     pass
 
+        # EXIT, CYCLE and GOTO statements (and labelled statements) are in
+        # CodeBlocks. If one of them transferred control out of the region
+        # (or a GOTO jumped into it) then the PSyData calls that open and
+        # close the region would not be made in matched pairs.
+        routine = node_list[0].ancestor(Routine)
+        gotos = walk([tuple(cblock.get_ast_nodes) for cblock in
+                      (routine.walk(CodeBlock) if routine else [])],
+                     PSyDataTrans._GOTO_STMTS)
+        targets = [label.string for label in walk(gotos, Fortran2003.Label)]
+        for node in node_list:
+            for cblock in node.walk(CodeBlock):
+                in_loop = cblock is not node and cblock.ancestor(
+                    (Loop, WhileLoop), limit=node) is not None
+                if self._leaves_region(cblock.get_ast_nodes, in_loop, [],
+                                       targets):
+                    raise TransformationError(
+                        f"Error in {self.name}: the region contains a "
+                        f"statement that transfers control out of it (EXIT, "
+                        f"CYCLE, GOTO) or that is the target of a GOTO: "
+                        f"'{cblock.debug_string().strip()}'")
+
         super().validate(node_list, my_options)
+
+    # ------------------------------------------------------------------------
+    _GOTO_STMTS = (Fortran2003.Goto_Stmt, Fortran2003.Computed_Goto_Stmt,
+                   Fortran2003.Arithmetic_If_Stmt)
+    _DO_CONSTRUCTS = (Fortran2003.Block_Nonlabel_Do_Construct,
+                      Fortran2003.Block_Label_Do_Construct)
+
+    @staticmethod
+    def _leaves_region(fp2_nodes, in_loop, names, targets):
+        '''
+        :param fp2_nodes: fparser2 nodes of (part of) a CodeBlock in a region.
+        :type fp2_nodes: list[:py:class:`fparser.two.utils.Base`]
+        :param bool in_loop: whether the nodes are within a loop that is \
+            itself inside the region.
+        :param list[str] names: names of the enclosing DO constructs that \
+            are inside the CodeBlock.
+        :param list[str] targets: the labels that GOTOs of the routine use.
+
+        :returns: whether the nodes contain a GOTO, a statement that is the \
+            target of a GOTO, or an EXIT or CYCLE that does not belong to a \
+            loop inside the region.
+        :rtype: bool
+        '''
+        for node in fp2_nodes:
+            item = getattr(node, "item", None)
+            if isinstance(node, PSyDataTrans._GOTO_STMTS) or (
+                    item and item.label and str(item.label) in targets):
+                return True
+            if isinstance(node, (Fortran2003.Exit_Stmt,
+                                 Fortran2003.Cycle_Stmt)):
+                if (not in_loop if node.items[1] is None else
+                        node.items[1].string.lower() not in names):
+                    return True
+            elif isinstance(node, PSyDataTrans._DO_CONSTRUCTS):
+                name = node.content[0].item and node.content[0].item.name
+                if PSyDataTrans._leaves_region(
+                        node.content, True,
+                        names + [name.lower()] if name else names, targets):
+                    return True
+            elif isinstance(node, (BlockBase, Fortran2003.If_Stmt)):
+                if PSyDataTrans._leaves_region(node.children, in_loop, names,
+                                               targets):
+                    return True
+        return False
 
     # ------------------------------------------------------------------------
     def apply(self, nodes, options=None):
